@@ -32,7 +32,8 @@ pub fn ser_header_into_file(f: &mut StdFile, h: &RecordHeader) -> (r: Result<(),
 { unimplemented!() }
 #[verifier::external_body]
 pub fn header_serialized_size(h: &RecordHeader) -> (r: Result<u64, TErr>)
-    ensures r.is_ok() ==> r->Ok_0 == header_len(*h), header_len(*h) <= 0x1_0000
+    ensures r.is_ok() ==> r->Ok_0 == header_len(*h), header_len(*h) <= 0x1_0000,
+        r.is_err() ==> !(r->Err_0 is Tools) && !(r->Err_0 is PearlValidation)
 { unimplemented!() }
 #[verifier::external_body]
 pub fn ser_meta(m: &Meta) -> (r: Result<Vec<u8>, TErr>)
@@ -54,7 +55,8 @@ pub fn cache_push(c: &mut Vec<Record>, r: Record) { unimplemented!() }
 
 // anyhow::Error as the tools inspect it: ToolsError variants (src/tools/error.rs) or anything else
 pub enum ToolsError { RecordValidation(()), RecordHeaderValidation(()), SkipRecordData(()), Other(()) }
-pub enum TErr { Tools(ToolsError), Io, Misc }
+// PearlValidation: a record / header validation error of the library itself (crate::Error), NOT a ToolsError
+pub enum TErr { Tools(ToolsError), Io, PearlValidation, Misc }
 impl TErr {
     // anyhow::Error::downcast_ref::<ToolsError>()
     pub fn downcast_tools(&self) -> (r: Option<&ToolsError>)
@@ -85,3 +87,48 @@ impl RecordHeader {
 }
 // "the record passed header magic+CRC and data CRC" (ADVERSARIAL input: any bytes may be read)
 pub uninterp spec fn record_intact(r: Record) -> bool;
+
+// ---- reader side: bincode / read_exact on an ADVERSARIAL file ----
+pub uninterp spec fn header_valid(h: RecordHeader) -> bool;
+impl StdFile {
+    // bincode::deserialize_from(&mut file): consumes exactly the serialized length of the header it returns
+    #[verifier::external_body]
+    pub fn deser_header(&mut self) -> (r: Result<RecordHeader, TErr>)
+        ensures r.is_ok() ==> final(self).pos() == old(self).pos() + header_len(r->Ok_0), final(self).log() == old(self).log(),
+            r.is_err() ==> !(r->Err_0 is Tools) && !(r->Err_0 is PearlValidation),
+    { unimplemented!() }
+    // Read::read_exact(&mut buf)
+    #[verifier::external_body]
+    pub fn read_exact_vec(&mut self, buf: &mut Vec<u8>) -> (r: Result<(), TErr>)
+        ensures r.is_ok() ==> final(self).pos() == old(self).pos() + old(buf)@.len(), final(buf)@.len() == old(buf)@.len(),
+            final(self).log() == old(self).log(), r.is_err() ==> !(r->Err_0 is Tools) && !(r->Err_0 is PearlValidation),
+    { unimplemented!() }
+}
+impl RecordHeader {
+    // Header::validate (magic byte + header CRC; unit `record`)
+    #[verifier::external_body]
+    pub fn validate(&self) -> (r: Result<(), TErr>)
+        // (a header that passes magic + CRC was written by the storage: its size fields are real sizes,
+        // far below u64::MAX - ASSUMED, as in unit raw_scan)
+        ensures r.is_ok() <==> header_valid(*self), r.is_err() ==> r->Err_0 is PearlValidation,
+            r.is_ok() ==> self.meta_size < 0x100_0000_0000 && self.data_size < 0x100_0000_0000
+    { unimplemented!() }
+    #[verifier::external_body]
+    pub fn clone(&self) -> (r: RecordHeader) ensures r == *self { unimplemented!() }
+}
+impl Record {
+    // Record::validate (header validation + data CRC; unit `record`)
+    #[verifier::external_body]
+    pub fn validate(self) -> (r: Result<Record, TErr>)
+        ensures r.is_ok() ==> r->Ok_0 == self && record_intact(self), r.is_err() ==> r->Err_0 is PearlValidation
+    { unimplemented!() }
+}
+// vec![0; n]
+#[verifier::external_body]
+pub fn vec_zeroed_u8(n: usize) -> (r: Vec<u8>) ensures r@.len() == n { unimplemented!() }
+// bincode::deserialize::<Meta>(&bytes)
+#[verifier::external_body]
+pub fn deser_meta(b: &Vec<u8>) -> (r: Result<Meta, TErr>) ensures r.is_err() ==> !(r->Err_0 is Tools) && !(r->Err_0 is PearlValidation) { unimplemented!() }
+// Vec<u8> -> Bytes
+#[verifier::external_body]
+pub fn bytes_from_vec(v: Vec<u8>) -> (r: Bytes) ensures r@ == v@ { unimplemented!() }
